@@ -734,7 +734,7 @@ def main(chk: Check, replay: dict | None = None) -> int:
     chk.prove()
     rng = chk.rng
     mods = [c["input"]["module"] for c in load_corpus("C05")] + fixed_modules()
-    mods += [gen_module(rng) for _ in range(260 if chk.thorough else 60)]
+    mods += [gen_module(rng) for _ in range(300 if chk.thorough else 90)]
     cases = run_modules(mods)
     chk.cov["evaluations"] = len(cases)
     chk.cov["distinct_nontrivial"] = len({json.dumps(c["input"], sort_keys=True) for c in cases
